@@ -38,6 +38,7 @@ class Ctx(object):
         self.not_decided = []
         self.analysed = []       # entry points / functions summarised
         self.counts = {}
+        self.cache = {}
         self.t0 = time.time()
 
     # status: True = discharged, False = violated, None = undecided (fail closed)
